@@ -86,8 +86,11 @@ def siteVsText (cls : Text) (s : Site) (t : Text) : Json :=
                 | .gotFirst => true
                 | .gotLast => (splitLast sSemiGot rest).isSome
                 | .plain => true)),
-              -- the problem text is an instance of typedpy's templates, placed where the shape says
-              ("problemOk", .bool (bodyHasTemplate s.loc.shape
+              -- the hypothesis of the render → parse theorems (`goodTexts`) holds of the real text
+              ("problemOk", .bool (bodyWellFormed s.loc.shape
+                (match s.loc.shape with | .gotFirst => (dropPre sGot rest).getD [] | _ => rest))),
+              -- (evidence only) the problem text is an instance of typedpy's templates
+              ("templateOk", .bool (bodyHasTemplate s.loc.shape
                 (match s.loc.shape with | .gotFirst => (dropPre sGot rest).getD [] | _ => rest)))]
 
 def siteToJson (cls : Text) (s : Site) : Json :=
